@@ -65,7 +65,7 @@ PROBES = {
 }
 KNOWN_PREDICATES = {
     "T1": "a store narrower than an earlier store to the same concrete start address",
-    "T2": "a load wider than the latest store to the same pointer key",
+    "T2": "a load wider than the latest store to the same pointer key (repaired by 90639ed; the predicate is kept for reporting only and is applied only while an open entry lists it)",
     "T3": "any big-endian store",
 }
 
